@@ -108,6 +108,31 @@ func replayLimiter(c rlCfg, steps []rlStep) (mis string, at int, nontrivial bool
 			} else if err != nil {
 				return "unexpected error " + err.Error(), i, true
 			}
+		case "BlockDl":
+			t0 := time.Now()
+			dctx, dcancel := context.WithDeadline(ctx, t0.Add(time.Duration(s.D)*u))
+			err := rl.AcquirePermitsWithMaxWait(dctx, s.K, mw)
+			dcancel()
+			got = time.Since(t0)
+			switch {
+			case errors.Is(err, ratelimiter.ErrExceeded):
+				if got != 0 {
+					return fmt.Sprintf("refused blocking acquire took %v", got), i, true
+				}
+				got = -1
+			case errors.Is(err, context.DeadlineExceeded):
+				// the wait was longer than the deadline: returned at the deadline, and the spec's wait must indeed be longer
+				if s.Wait <= s.D || got != time.Duration(s.D)*u {
+					return fmt.Sprintf("BlockDl(k=%d,maxWait=%d,deadline=%d): context error after %v, spec wait %d", s.K, s.Mw, s.D, got, s.Wait), i, true
+				}
+				got = time.Duration(s.Wait) * u
+			case err != nil:
+				return "unexpected error " + err.Error(), i, true
+			default:
+				if s.Wait > s.D {
+					return fmt.Sprintf("BlockDl(k=%d,maxWait=%d,deadline=%d): succeeded after %v although the wait (%d) is longer than the deadline", s.K, s.Mw, s.D, got, s.Wait), i, true
+				}
+			}
 		case "Exec":
 			t0 := time.Now()
 			ran := false
